@@ -29,8 +29,9 @@ def load_known_findings():
         return json.load(f)
 
 
-def run_shards(prop, specs, shard_timeout):
-    """Run each spec in its own subprocess; at most MAX_WORKERS at a time. Returns (results, problems)."""
+def run_shards(prop, specs, shard_timeout, workers=None):
+    """Run each spec in its own subprocess; at most `workers` (default MAX_WORKERS) at a time. Returns (results, problems)."""
+    workers = workers or MAX_WORKERS
     workdir = tempfile.mkdtemp(prefix="verif_run_", dir=common.scratch_root())
     results, problems = [], []
     env = dict(os.environ)
@@ -43,7 +44,7 @@ def run_shards(prop, specs, shard_timeout):
     running = {}
     try:
         while pending or running:
-            while pending and len(running) < MAX_WORKERS:
+            while pending and len(running) < workers:
                 i, spec = pending.pop(0)
                 spec_path = os.path.join(workdir, f"spec{i}.json")
                 out_path = os.path.join(workdir, f"out{i}.json")
@@ -134,7 +135,9 @@ def main(argv):
         s.setdefault("seed", seed)
         s.setdefault("tier", tier)
     shard_timeout = getattr(mod, "SHARD_TIMEOUT", {"quick": 240, "thorough": 1500})[tier]
-    results, problems = run_shards(prop, specs, shard_timeout)
+    # a module whose shards mostly wait (settle sleeps of the frontend schedulers) may ask for more processes than cores
+    workers = MAX_WORKERS * getattr(mod, "WORKERS_PER_CORE", 1) if "VERIF_WORKERS" not in os.environ else MAX_WORKERS
+    results, problems = run_shards(prop, specs, shard_timeout, workers)
     merged = common.merge(results)
     fin = mod.finish(merged, tier, seed)  # -> {"coverage": {...}, "inconclusive": [reasons], "assumptions": [...]}
     for v in fin.get("violations", []):  # aggregate (whole-run) oracles decided in finish()
